@@ -95,6 +95,9 @@ func cmdCheck(args []string) int {
 	if *tier == "" {
 		*tier = "quick"
 	}
+	if *tier == "thorough" {
+		currentTier = 1
+	}
 	seed, _ := strconv.ParseInt(os.Getenv("VERIF_SEED"), 10, 64)
 	root := verifRoot()
 	t0 := time.Now()
@@ -268,10 +271,12 @@ func cmdCheck(args []string) int {
 	return exit
 }
 
+var currentTier = 0
+
 func writeReplay(path, prop string, v *violation) {
 	rec := map[string]interface{}{
 		"property": prop, "harness": v.Harness, "label": v.Label, "kind": v.Kind, "msg": v.Msg,
-		"inputs": v.Inputs, "decisions": v.Decs, "tags": v.Tags,
+		"inputs": v.Inputs, "decisions": v.Decs, "tags": v.Tags, "tier": currentTier,
 	}
 	b, _ := json.MarshalIndent(rec, "", " ")
 	os.WriteFile(path, b, 0o644)
@@ -474,7 +479,7 @@ func TestVFReplay(t *testing.T) {
 	os.WriteFile(ovJSON, b, 0o644)
 
 	bin := filepath.Join(scratch, "replay.test")
-	env := append(os.Environ(), "GOFLAGS=-mod=mod", "GOPROXY=off", "GOSUMDB=off", "GOTOOLCHAIN=local", "VF_REPLAY="+replayPath, fmt.Sprintf("VF_LOOPS=%d", loops))
+	env := append(os.Environ(), "GOFLAGS=-mod=mod", "GOPROXY=off", "GOSUMDB=off", "GOTOOLCHAIN=local", "VF_REPLAY="+replayPath, fmt.Sprintf("VF_LOOPS=%d", loops), fmt.Sprintf("VF_TIER=%d", currentTier))
 	build := osexec.Command("go", "test", "-c", "-vet=off", "-overlay", ovJSON, "-o", bin, pkg)
 	build.Dir = filepath.Join(repoRoot, module)
 	build.Env = env
@@ -549,11 +554,13 @@ func cmdReplay(args []string) int {
 		Harness  string `json:"harness"`
 		Label    string `json:"label"`
 		Kind     string `json:"kind"`
+		Tier     int    `json:"tier"`
 	}
 	if err := readJSON(args[0], &rec); err != nil {
 		fmt.Println(err)
 		return 2
 	}
+	currentTier = rec.Tier
 	root := verifRoot()
 	var props map[string]propSpec
 	readJSON(filepath.Join(root, "harness", "props.json"), &props)
